@@ -63,6 +63,8 @@ def gen_cases(tier, seed):
 def describe(case):
     if case[0] == 'digraphs':
         return {'kind': 'all digraphs', 'n': case[1], 'adjacency_bits_from': case[2], 'to': case[3]}
+    if case[0] == 'grammar':
+        return {'kind': 'grammar', 'ir': case[1], 'stale_label_variant': case[2]}
     return {'kind': 'grammar skeletons', 'from': case[2], 'to': case[3]}
 
 
@@ -77,7 +79,7 @@ def check_scc(adj, r, case, trig='any'):
     got = [frozenset(c) for c in comps]
     key = tuple((repr(v), tuple(map(repr, adj[v]))) for v in adj)
     if len(got) != len(set(got)) or set(got) != want or sum(len(c) for c in got) != len(adj):
-        r.bad('wrong-partition', 'utils.scc', trig, 'adj=%r got=%r want=%r' % (adj, got, sorted(map(sorted, want))), case, key)
+        r.bad('wrong-partition', 'utils.scc', trig, 'adj=%r got=%r want=%r' % (adj, got, sorted(sorted(map(repr, c)) for c in want)), case, key)
         return
     # order: no component has an edge into a later one
     pos = {}
@@ -107,20 +109,44 @@ def run_case(case):
                     adj[v] = dict.fromkeys(succ)
                 check_scc(adj, r, ('digraphs', n, bits, bits + 1))
         return r
+    if case[0] == 'grammar':
+        check_grammar(case[1], r, case[2])
+        return r
     _, tier, lo, hi = case
     irs = list(itertools.islice(grammar_irs(tier), lo, hi))
     for g in irs:
-        check_grammar(g, r)
+        check_grammar(g, r, stale=False)
+        check_grammar(g, r, stale=True)
     return r
 
 
-def check_grammar(g, r):
+def add_stale_labels(fgg):
+    """Presentation variant: every right-hand side once carried (and lost again) an edge of each
+    nonterminal it does not use, and knows the labels of all nonterminals -- its label table mentions
+    labels that label no edge."""
+    import fggs
+    for rule in fgg.all_rules():
+        used = {e.label for e in rule.rhs.edges()}
+        for nt in fgg.nonterminals():
+            if nt in used:
+                continue
+            nodes = [fggs.Node(l) for l in nt.type]
+            e = fggs.Edge(nt, nodes)
+            rule.rhs.add_edge(e)
+            rule.rhs.remove_edge(e)
+            for v in nodes:
+                rule.rhs.remove_node(v)
+
+
+def check_grammar(g, r, stale=False):
     import fggs, torch
     from fggs.utils import nonterminal_graph, scc
-    case = ('grammar', g)
-    key = ('g', tuple(g['rules']))
+    case = ('grammar', g, stale)
+    key = ('g', tuple(g['rules']), stale)
     try:
         fgg = IR.build_fgg(g, 'bool')
+        if stale:
+            add_stale_labels(fgg)
         ng = nonterminal_graph(fgg)
     except Exception as e:
         r.exc(e, 'any', case, key)
